@@ -311,11 +311,40 @@ def mkbool(e):
 
 
 def And(*xs):
-    return mkbool(z3.And(*[_tobool(x) for x in xs])) if xs else True
+    """conjunction without simplifying the operands (they may be deep terms): only literal folding"""
+    rest = []
+    for x in xs:
+        if isinstance(x, SymBool):
+            rest.append(x.e)
+        elif isinstance(x, SymInt):
+            r = x != 0
+            if r is False:
+                return False
+            if r is not True:
+                rest.append(r.e)
+        elif not x:
+            return False
+    if not rest:
+        return True
+    return SymBool(rest[0] if len(rest) == 1 else z3.And(*rest))
 
 
 def Or(*xs):
-    return mkbool(z3.Or(*[_tobool(x) for x in xs])) if xs else False
+    rest = []
+    for x in xs:
+        if isinstance(x, SymBool):
+            rest.append(x.e)
+        elif isinstance(x, SymInt):
+            r = x != 0
+            if r is True:
+                return True
+            if r is not False:
+                rest.append(r.e)
+        elif x:
+            return True
+    if not rest:
+        return False
+    return SymBool(rest[0] if len(rest) == 1 else z3.Or(*rest))
 
 
 def Not(x):
@@ -427,12 +456,12 @@ class SymInt:
 
     def __init__(self, e, lo=None, hi=None, w=1):
         if _is_bv(e):
-            w = e.size()
-            wlo, whi = -(1 << (w - 1)), (1 << (w - 1)) - 1
+            sz = e.size()
+            wlo, whi = -(1 << (sz - 1)), (1 << (sz - 1)) - 1
             lo = wlo if lo is None else max(lo, wlo)
             hi = whi if hi is None else min(hi, whi)
             need = _bits(lo, hi)
-            if need < w:
+            if need < sz:
                 e = z3.Extract(need - 1, 0, e)
         self.e = e
         self.lo = lo
@@ -703,7 +732,7 @@ class SymInt:
         raise Unsupported("symbolic exponent")
 
     # -- comparisons ----------------------------------------------------------------------------
-    def _cmp(self, o, f, fi):
+    def _cmp(self, o, f, fi, same=None):
         o = lift(o)
         if o is None:
             return NotImplemented
@@ -711,6 +740,9 @@ class SymInt:
         r = fi(a.lo, a.hi, b.lo, b.hi)
         if r is not None:
             return r
+        if a.e is b.e or (a.e.sort() == b.e.sort() and z3.eq(a.e, b.e)):
+            if same is not None:
+                return same   # identical terms
         wt = a.w + b.w
         a, b = _unify(a, b)
         e = f(a.e, b.e)
@@ -721,24 +753,24 @@ class SymInt:
     def __eq__(self, o):
         if o is None or isinstance(o, (str, bytes, float)):
             return False
-        return self._cmp(o, lambda a, b: a == b, _i_eq)
+        return self._cmp(o, lambda a, b: a == b, _i_eq, True)
 
     def __ne__(self, o):
         if o is None or isinstance(o, (str, bytes, float)):
             return True
-        return self._cmp(o, lambda a, b: a != b, _i_ne)
+        return self._cmp(o, lambda a, b: a != b, _i_ne, False)
 
     def __lt__(self, o):
-        return self._cmp(o, lambda a, b: a < b, _i_lt)
+        return self._cmp(o, lambda a, b: a < b, _i_lt, False)
 
     def __le__(self, o):
-        return self._cmp(o, lambda a, b: a <= b, _i_le)
+        return self._cmp(o, lambda a, b: a <= b, _i_le, True)
 
     def __gt__(self, o):
-        return self._cmp(o, lambda a, b: a > b, lambda al, ah, bl, bh: _i_lt(bl, bh, al, ah))
+        return self._cmp(o, lambda a, b: a > b, lambda al, ah, bl, bh: _i_lt(bl, bh, al, ah), False)
 
     def __ge__(self, o):
-        return self._cmp(o, lambda a, b: a >= b, lambda al, ah, bl, bh: _i_le(bl, bh, al, ah))
+        return self._cmp(o, lambda a, b: a >= b, lambda al, ah, bl, bh: _i_le(bl, bh, al, ah), True)
 
     def __bool__(self):
         return bool(self != 0)
